@@ -276,6 +276,21 @@ def run(ctx):
             det = "; ".join(f"[k, {k!r}] = {short(v, 90)}" for k, v in got.items())
             good = got == {ZERO: oy + (CY - y) * s0, ONE: ox + (x - CX) * s1}
     ctx.ob("C02.centre", f.key, good, where=f, node=f.node, construct=det, message="grid from mask must hold the pixel centres y = oy + ((H-1)/2 - y) s0, x = ox + (x - (W-1)/2) s1 with (H, W) the mask's own shape")
+    # 1-D analogue
+    M1 = Ref("M1", shape=(W,))
+    f = p.func(f"{G1U}:grid_1d_slim_via_mask_from")
+    S = K.summarize(f, dict(mask_1d=M1, pixel_scales=(s1,), origin=(ox,)))
+    out = S.returned_array_names()
+    good = False
+    det = ""
+    if len(out) == 1:
+        sts = S.stores_to(out[0])
+        if len(sts) == 1 and len(sts[0].loops) == 1:
+            x = S_(sts[0].loops[0].var)
+            v = value_poly(sts[0].value)
+            det = short(v, 120)
+            good = v == ox + (x - CX) * s1 and sts[0].loops[0].lo == ZERO and sts[0].loops[0].step == ONE
+    ctx.ob("C02.centre", f.key, good, where=f, node=f.node, construct=det, message="1-D grid from mask must hold the pixel centres x = ox + (x - (W-1)/2) s with W the mask's own length (origin NOT multiplied by the pixel scale)")
     # --- compositions (identity by substitution)
     compositions(ctx, p, K)
     extent_rule(ctx, p, K)
@@ -373,6 +388,7 @@ CONTROLS = [
     Control("elliptical annulus compares with the wrong radius", _M, in_func("mask_2d_elliptical_annular_from", "and outer_r_scaled_elliptical <= outer_major_axis_radius", "and outer_r_scaled_elliptical <= inner_major_axis_radius"), "C02.shape-mask"),
     Control("geometry passes grid origin (seed C02/1)", "autoarray/geometry/geometry_2d.py", in_func("Geometry2D.grid_pixel_indexes_2d_from", "origin=self.origin,", "origin=grid_scaled_2d.origin,"), "C02.wiring"),
     Control("extent order swapped", "autoarray/geometry/geometry_2d.py", in_func("Geometry2D.extent", "self.scaled_minima[1],\n            self.scaled_maxima[1],\n            self.scaled_minima[0],\n            self.scaled_maxima[0],", "self.scaled_minima[0],\n            self.scaled_maxima[0],\n            self.scaled_minima[1],\n            self.scaled_maxima[1],"), "C02.extent"),
+    Control("1-D grid from mask scales the origin (seed C02/4)", "autoarray/structures/grids/grid_1d_util.py", in_func("grid_1d_slim_via_mask_from", "grid_1d[index] = (x - centres_scaled[0]) * pixel_scales[0]", "grid_1d[index] = (x - centres_scaled[0] + origin[0]) * pixel_scales[0]"), "C02.centre"),
     Control("grid from mask off by half a pixel", "autoarray/structures/grids/grid_2d_util.py", in_func("grid_2d_slim_via_mask_from", "grid_slim[index, 1] = (x - centres_scaled[1]) * pixel_scales[1]", "grid_slim[index, 1] = (x - centres_scaled[1] + 0.5) * pixel_scales[1]"), "C02.centre"),
     Control("twin: algebraic rearrangement", _G, in_func("scaled_coordinates_2d_from", "y_pixel = pixel_scales[0] * -(\n        pixel_coordinates_2d[0] - central_scaled_coordinates[0]\n    )", "y_pixel = (central_scaled_coordinates[0] - pixel_coordinates_2d[0]) * pixel_scales[0]"), None, twin=True),
     Control("twin: annulus test written the other way round", _M, in_func("mask_2d_circular_annular_from", "if outer_radius >= r_scaled >= inner_radius:", "if inner_radius <= r_scaled and r_scaled <= outer_radius:"), None, twin=True),
